@@ -87,6 +87,11 @@ def Target.sndStep (t : Target) : Option Target :=
   | .recv =>
     match t.buf with
     | m :: rest =>
+      -- `if curFile != "" && curFile != data.Dst { break }`: a message of a different file ends the loop
+      -- (the message is dropped, the writer closed, the buffer drained): a sender serves ONE file
+      if t.cop ≠ .none ∧ (t.args.map (·.dst)) ≠ some m.md.dst then
+        some { t with buf := rest, snd := .drain, wClosed := true }
+      else
       some { t with buf := rest, snd := .write m.chunk true, cop := if t.cop = .none then .lock else t.cop,
                     args := if t.cop = .none then some m.md else t.args }
     | [] => if t.bufClosed then some { t with snd := .exit, wClosed := true } else none
@@ -173,11 +178,21 @@ def dedup : List Nat → List Nat
   | [] => []
   | x :: r => x :: (dedup r).filter (· ≠ x)
 
-/-- `SendLargeFile` on the messages `msgs`, each addressed to the target list `ids` (indices into
-the `n` known targets, duplicates allowed): the producer's schedule of pushes -/
+/-- `SendLargeFile` on a stream of messages, each with its own target list (indices into the `n`
+known targets, duplicates allowed; several files with different target lists may follow one another
+on one stream): the producer's schedule of pushes -/
+def initStateM (n : Nat) (stream : List (List Nat × Msg)) : State :=
+  { todo := stream.flatMap fun (ids, m) => (dedup ids).map fun i => (i, m),
+    closed := false, ts := List.replicate n {} }
+
+/-- one file: every message carries the same target list -/
 def initState (n : Nat) (ids : List Nat) (msgs : List Msg) : State :=
   { todo := msgs.flatMap fun m => (dedup ids).map fun i => (i, m),
     closed := false, ts := List.replicate n {} }
+
+theorem initState_eq (n : Nat) (ids : List Nat) (msgs : List Msg) :
+    initState n ids msgs = initStateM n (msgs.map fun m => (ids, m)) := by
+  simp [initState, initStateM, List.flatMap_map]
 
 /-- run with the scheduler "first enabled action" until nothing is enabled (fuel-bounded) -/
 def run (behs : List Beh) : Nat → State → State
